@@ -30,4 +30,88 @@ theorem run_seqfam (cfg : Cfg) (fuel : Nat) (g : G) (sh : SeqShape) (ctx : Ctx) 
     unfold run
     rfl
 
+/-- the end of text.LeftTrim, after the operand answered `o` -/
+def ltrimFinish (pos pos' : Nat) (wsErr : Option Err) (o : Out) (st : St) : Out × St :=
+  let st := match st.ctxErr with
+    | some ce => if ce.pos = pos' && ce.kind.isNotFound then st.setError (some ⟨pos, ce.kind⟩) else st
+    | none => st
+  match o.err with
+  | some e =>
+    match wsErr with
+    | some w =>
+      if e.pos > pos' then (⟨.nil, [], some w⟩, st)
+      else if e.kind.isNotFound then (⟨o.res, o.cp, some ⟨pos, e.kind⟩⟩, st)
+      else (⟨o.res, o.cp, some e⟩, st)
+    | none => (⟨o.res, o.cp, some e⟩, st)
+  | none =>
+    match wsErr with
+    | some w => (⟨.nil, [], some w⟩, st)
+    | none => (⟨o.res, o.cp, none⟩, st)
+
+theorem run_ltrim (cfg : Cfg) (fuel : Nat) (g : G) (m : Text.WsMode) (ctx : Ctx) (pos : Nat) (st : St) :
+    run cfg (fuel + 1) (.ltrim g m) ctx pos st =
+      if cfg.maxCalls ≠ 0 ∧ st.calls > cfg.maxCalls then none else
+      match run cfg fuel g ctx (Text.skipWhitespaces cfg.file pos m).1 st with
+      | none => none
+      | some (o, st1) =>
+        some (ltrimFinish pos (Text.skipWhitespaces cfg.file pos m).1 (wsToErr (Text.skipWhitespaces cfg.file pos m).2) o st1) := by
+  conv => lhs; unfold run
+  by_cases hb : cfg.maxCalls ≠ 0 ∧ st.calls > cfg.maxCalls
+  · rw [if_pos hb, if_pos hb]
+  · rw [if_neg hb, if_neg hb]
+    cases hr : run cfg fuel g ctx (Text.skipWhitespaces cfg.file pos m).1 st with
+    | none => simp only [hr]
+    | some r =>
+      obtain ⟨o, st1⟩ := r
+      simp only [hr, ltrimFinish]
+      cases ho : o.err with
+      | none =>
+        cases hw : wsToErr (Text.skipWhitespaces cfg.file pos m).2 with
+        | none => simp only; cases st1.ctxErr <;> rfl
+        | some w => simp only; cases st1.ctxErr <;> rfl
+      | some e =>
+        cases hw : wsToErr (Text.skipWhitespaces cfg.file pos m).2 with
+        | none => simp only; cases st1.ctxErr <;> rfl
+        | some w =>
+          simp only
+          by_cases h1 : e.pos > (Text.skipWhitespaces cfg.file pos m).1
+          · simp only [h1, ↓reduceIte]; cases st1.ctxErr <;> rfl
+          · simp only [h1, ↓reduceIte]
+            by_cases h2 : e.kind.isNotFound = true
+            · simp only [h2, ↓reduceIte]; cases st1.ctxErr <;> rfl
+            · simp only [h2]; cases st1.ctxErr <;> rfl
+
+theorem ltrimFinish_res (pos pos' : Nat) (wsErr : Option Err) (o : Out) (st : St) :
+    (∀ x ∈ (ltrimFinish pos pos' wsErr o st).1.res.alts, x ∈ o.res.alts) ∧
+    (ltrimFinish pos pos' wsErr o st).2.cache = st.cache := by
+  have hst : (match st.ctxErr with
+      | some ce => if ce.pos = pos' && ce.kind.isNotFound then st.setError (some ⟨pos, ce.kind⟩) else st
+      | none => st).cache = st.cache := by
+    split
+    · split
+      · unfold St.setError
+        simp only
+        split
+        · rfl
+        · split <;> rfl
+      · rfl
+    · rfl
+  unfold ltrimFinish
+  simp only
+  cases o.err with
+  | none =>
+    cases wsErr with
+    | none => exact ⟨fun x hx => hx, hst⟩
+    | some w => exact ⟨fun x hx => (by cases hx), hst⟩
+  | some e =>
+    cases wsErr with
+    | none => exact ⟨fun x hx => hx, hst⟩
+    | some w =>
+      simp only
+      split
+      · exact ⟨fun x hx => (by cases hx), hst⟩
+      · split
+        · exact ⟨fun x hx => hx, hst⟩
+        · exact ⟨fun x hx => hx, hst⟩
+
 end PV
